@@ -8,6 +8,7 @@ TRUSTED = ['that every destination-facing write of the real serializers is check
 ASSUMPTIONS = ['a failed destination keeps failing; empty writes never fail']
 RULE = ('for each serializer (bundle incl. sections/variants/signatures, signed exchange b1/b2/b3, header dump, cert chain, MI encoder both drafts, CBOR encoder scripts) and representative artifacts: '
         'EVERY failure position k in [0, |out|] x {short write, error return}; compared: error vs success, accepted bytes are a prefix of the fault-free output, |accepted| <= k (= k for short writes), returned count = accepted (bundle); '
+        'the same against destinations with optional capabilities (fault.dest: Flush() error non-sticky / sticky / void, Sync+Close, WriteString+WriteByte, ReadFrom, all, bufio.Writer 16 / 4096 flushed by the caller): every k; '
         'non-trivial = k < |out| (a fault is actually injected)')
 EXHAUSTIVE = {'quick': 'every k in [0,|out|] for each of the artifacts listed in samples, both fault modes', 'thorough': 'every k in [0,|out|] for each artifact, both fault modes'}
 
@@ -20,6 +21,8 @@ def nontrivial(op, m):
 
 def classify(op, m):
     t = op.split(' ')
+    if t[0] == 'fault.dest':
+        return f'fault.dest:{t[1]}:{t[2]}:{m.split(" ")[0]}'
     if t[0] != 'fault':
         return f'{t[0]}:{t[1]}:{m.split(" ")[0]}'
     return f'fault:{t[1]}:{t[3]}:{m.split(" ")[0]}'
@@ -55,6 +58,34 @@ def artifacts(rng, w, thorough):
             arts.append(('bundle', rand_bundle(rng, rng.choice(['b1', 'b2']), w, nex=rng.randrange(1, 4))))
             arts.append(('sxg', exs(rand_exchange(rng, rng.choice(['b1', 'b2', 'b3'])))))
     return arts
+
+
+# what the destination can do besides Write (a serializer may type-assert for it): Flush() error that does NOT repeat an earlier write
+# error / that does (bufio-like) / without a result (http.Flusher), Sync+Close, WriteString+WriteByte, ReadFrom, all of them, and real
+# bufio.Writers (flushed by their owner after a successful return; that Flush error counts)
+DEST_KINDS = ['flush', 'flushsticky', 'flushvoid', 'syncclose', 'string', 'readfrom', 'all', 'bufio16', 'bufio4096']
+
+
+def dest_kind_ops(arts, lens):
+    """fault positions of every artifact against every destination kind; same expectation as the plain `fault` op (the model side is an
+    alias). Every k in both fault modes for the bundle serializer x the kinds with a Flush() error method and a real bufio.Writer; every k,
+    modes alternating, for the bundle serializer x the other kinds and for every other serializer x flush / all; every 4th k and both
+    ends for the rest."""
+    ops = []
+    for (kind, a), ln in zip(arts, lens):
+        if not ln or not ln.startswith('ok '):
+            continue
+        n = int(ln.split(' ')[1])
+        for dk in DEST_KINDS:
+            both_modes = kind == 'bundle' and dk in ('flush', 'flushsticky', 'all', 'bufio16')
+            every = kind == 'bundle' or dk in ('flush', 'all')
+            for k in range(0, n + 1):
+                if not every and k % 4 and k not in (1, n - 1, n):
+                    continue
+                for mode in (('short', 'error') if both_modes else (('short', 'error')[(k + len(dk)) % 2],)):
+                    ops.append(f'fault.dest {dk} {kind} {k} {mode} {a}')
+            ops.append(f'fault.dest {dk} {kind} {n + 5} short {a}')
+    return ops
 
 
 def run(ctx):
@@ -94,6 +125,7 @@ def run(ctx):
                     ops.append(f'fault sxg {k_} {"short" if k_ % 2 else "error"} {a}')
     ctx.stats = dict(artifacts=cover)
     ctx.both(ops)
+    ctx.both(dest_kind_ops(arts, lens))
     # byte accounting of the CountingWriter under faults delivered as short writes / plain errors (compared with Model/CountingWriter)
     import c04
     ctx.both([o for o in c04.cw_ops(rng, 100 if not thorough else 2000) if o.split(' ')[1] in ('short', 'hard')])
